@@ -296,4 +296,20 @@ PROPS = {
         trusted_base=[],
         technique="bounded run-time stand-in (token-tree vs doctree comparison on generated documents) - no contract discharged yet",
     ),
+    "C06": dict(
+        level="exploration",
+        contracts=[],
+        harness=True,
+        explanation=(
+            "BOUNDED ONLY so far (the plumbing contracts of nested_render_text / MockState.nested_parse / run_directive are "
+            "not yet under contract; the ownership half - the shared md_env and the restored renderer state - is in C15's "
+            "frame pass): nodes produced inside a note directive body at depth 1-4, backtick and colon fences, equal the "
+            "nodes of the same generated Markdown at top level; include and block substitution equal the text in place; "
+            "reference definitions, footnotes and targets defined inside an include / directive body stay usable from later "
+            "top-level text and later directive bodies."
+        ),
+        assumptions=["docutils admonition directives pass content and offset unchanged to nested_parse"],
+        trusted_base=[],
+        technique="bounded run-time stand-in (nested vs top-level rendering of generated Markdown) - no contract discharged yet",
+    ),
 }
